@@ -616,7 +616,9 @@ def run_atad(ctx, model, case):
         bad = ("branch", im["gsize"], mo["gsize"])
     elif im["G"] is not None and np.all(np.isfinite(mo["G"])) and not vclose(im["G"], mo["G"], kk):
         bad = ("G", tolist(im["G"]), tolist(mo["G"]))
-    elif not vclose(im["x"], mo["x"], kk, rtol=1e-8):
+    elif not _atad_zero_weight(case) and not vclose(im["x"], mo["x"], kk, rtol=1e-8):
+        # (with a zero weight on the Woodbury path the model's x goes through 1/0 and is outside C14_woodbury_matrix;
+        #  the real x is then checked through the residual of the documented system only)
         bad = ("x", tolist(im["x"]), tolist(mo["x"]))
     elif not vclose(mo["lhs_impl"], b, kk, rtol=1e-8):
         bad = ("residual_at_returned_x", tolist(mo["lhs_impl"]), tolist(b))
